@@ -146,6 +146,8 @@ def check(model, rep):
     check_recorder(model, rep)
     from sa.forwarding import check_forwarding
     check_forwarding(model, rep, 'C01.forwarding', ('angular_position', 'angular_speed', 'angular_acceleration', 'master_gear_ratio'))
+    from sa.forwarding import check_setter_stores
+    check_setter_stores(model, rep, 'C01.setter-stores', ('angular_position', 'angular_speed', 'angular_acceleration', 'master_gear_ratio'))
     fresh = [n for n, _, _ in ins if n.startswith('fresh')]
     rep.decide(bool(fresh), 'C01.contexts', 'fresh-start instant', 'no fresh-start instant (t = 0) is computed before the stepping loop')
     rep.analysed.update({'run_paths': len(rm.paths), 'instant_contexts': len(ins), 'loops': len(rm.ir.loops)})
